@@ -358,17 +358,19 @@ class Reader:
         :return: pathlib.Path of the compressed *.cbin file
         """
         file_tmp = self.file_bin.with_suffix(".cbin_tmp")
+        ch_tmp = self.file_bin.with_suffix(".ch_tmp")
         assert not self.is_mtscomp
         mtscomp.compress(
             self.file_bin,
             out=file_tmp,
-            outmeta=self.file_bin.with_suffix(".ch"),
+            outmeta=ch_tmp,
             sample_rate=self.fs,
             n_channels=self.nc,
             dtype=self.dtype,
             **kwargs,
         )
         file_out = file_tmp.with_suffix(".cbin")
+        ch_tmp.rename(self.file_bin.with_suffix(".ch"))
         file_tmp.rename(file_out)
         if not keep_original:
             self.file_bin.unlink()
